@@ -19,6 +19,9 @@ Proof. destruct o; reflexivity. Qed.
 Lemma bind_ext {A C} (x : res A) (f g : A -> res C) : (forall a, f a = g a) -> bind x f = bind x g.
 Proof. intros H. destruct x; cbn [bind]; [apply H|reflexivity|reflexivity]. Qed.
 
+Lemma bind_done_r {A} (x : res A) : bind x (fun a => Done a) = x.
+Proof. destruct x; reflexivity. Qed.
+
 (* ds[i] *)
 Lemma rd_as_arr_get ds i : of_out (Cast.rd ds i) = arr_get ds (Z.of_nat i).
 Proof.
@@ -48,10 +51,10 @@ Proof.
   symmetry. apply Z.mod_unique with (q := -1); lia.
 Qed.
 
-(* ---------- the two loops shared by try_from_buint! / to_int! (and their signed variants) ---------- *)
+(* ---------- the loops shared by the conversion macros ---------- *)
 
-(* `while i < N { if ds[i] != padding { return err } i += 1 }` followed by `v`: Convert.pad_loop (true = fell through) *)
-Lemma pad_loop_tie {R : Type} (err v : R) ds padding :
+(* `while i < N { if ds[i] != padding { return err } i += 1 }` followed by K: Convert.pad_loop (true = fell through) *)
+Lemma pad_loop_tie {R : Type} (err : R) (K : res R) ds padding :
   forall f fuel i, (length ds <= i + f)%nat -> (f <= fuel)%nat ->
   bind (while_loop (R := R) fuel
           (fun i => (i <? Z.of_nat (length ds)))
@@ -64,8 +67,8 @@ Lemma pad_loop_tie {R : Type} (err v : R) ds padding :
                Done (Continue i)
              ))
           (Z.of_nat i))
-       (fun t' => match t' with Exited i => Done v | Returned r' => Done r' end)
-  = bind (of_out (Convert.pad_loop f ds padding i)) (fun fell_through => Done (if fell_through then v else err)).
+       (fun t' => match t' with Exited i => K | Returned r' => Done r' end)
+  = bind (of_out (Convert.pad_loop f ds padding i)) (fun fell_through => if fell_through then K else Done err).
 Proof.
   induction f as [|f IH]; intros fuel i Hend Hf.
   - cbn [Convert.pad_loop of_out bind]. rewrite while_loop_cond_false; [reflexivity|].
@@ -80,9 +83,17 @@ Proof.
       rewrite ltb_of_nat. apply Nat.ltb_ge. lia.
 Qed.
 
-(* `loop { let shift = i << BIT_SHIFT; if i >= N || shift >= pb { break; } out |= ds[i] as $int << shift; i += 1; }`:
-   Convert.loop_i with try_brk / try_or_body; the budget must exceed the model's (one more unit to reach the `break`) *)
-Lemma try_or_loop_tie {R A : Type} dbg w lg pb ds (K : Z -> Z -> res A) (KR : R -> res A) : 0 <= lg -> w = 2 ^ lg ->
+(* the two accumulation statements, `out |= ds[i] as $int << s` (g = identity, h = u_or) and
+   `out &= !((!ds[i]) as $int << s)` (g = u_not w, h = fun out t => u_and out (u_not pb t)), in one shape;
+   hb is the body of the hand model (Cast.v / Convert.v: try_or_body, try_and_body and the anonymous bodies of *_as_int_bits) *)
+Definition acc_body (dbg : bool) (pb w : Z) (g : Z -> Z) (h : Z -> Z -> Z) (ds : list Z) (i : nat) (out : Z) : outcome Z :=
+  obind (Cast.rd ds i) (fun d =>
+  obind (Cast.shl_chk dbg pb (ud pb (g d)) (Z.of_nat i * w)) (fun t =>
+  Ret (h out t))).
+
+(* `loop { let shift = i << BIT_SHIFT; if i >= N || shift >= pb { break; } out = h(out, g(ds[i]) as $int << shift); i += 1; }`:
+   Convert.loop_i with try_brk; the budget must exceed the model's (one more unit to reach the `break`) *)
+Lemma try_loop_tie {R A : Type} dbg w lg pb g h ds (K : Z -> Z -> res A) (KR : R -> res A) : 0 <= lg -> w = 2 ^ lg ->
   forall f fuel i out, (length ds <= i + f)%nat -> (f < fuel)%nat ->
   bind (while_loop (R := R) fuel
           (fun '(i, out) => true)
@@ -92,14 +103,14 @@ Lemma try_or_loop_tie {R A : Type} dbg w lg pb ds (K : Z -> Z -> res A) (KR : R 
                Done (Break (i, out))
              ) else (
                t1' <- arr_get ds i ;;
-               t2' <- pint_shl pb (ud pb t1') shift ;;
-               let out := (u_or out t2') in
+               t2' <- pint_shl pb (ud pb (g t1')) shift ;;
+               let out := (h out t2') in
                let i := (i + 1) in
                Done (Continue (i, out))
              ))
           (Z.of_nat i, out))
        (fun t' => match t' with Exited (i, out) => K i out | Returned r' => KR r' end)
-  = bind (of_out (Convert.loop_i f (Convert.try_brk pb w (length ds)) (Convert.try_or_body dbg pb w ds) i out))
+  = bind (of_out (Convert.loop_i f (Convert.try_brk pb w (length ds)) (acc_body dbg pb w g h ds) i out))
          (fun st => K (Z.of_nat (snd st)) (fst st)).
 Proof.
   intros Hlg Hw. assert (Hw0 : 0 < w) by (subst w; apply Z.pow_pos_nonneg; lia).
@@ -115,8 +126,45 @@ Proof.
     rewrite (ix_shl_BIT_SHIFT w lg) by assumption. rewrite Hbrk.
     destruct (Convert.try_brk pb w (length ds) i) eqn:Hb; [reflexivity|].
     unfold Convert.try_brk in Hb. apply orb_false_iff in Hb. destruct Hb as [Hi Hs].
-    apply Z.leb_gt in Hs. unfold Convert.try_or_body at 1.
+    apply Z.leb_gt in Hs. unfold acc_body at 1.
     rewrite !of_out_obind, <- rd_as_arr_get. destruct (Cast.rd ds i) as [d|]; [|reflexivity]. cbn [of_out bind].
     rewrite pint_shl_ok by nia. rewrite shl_chk_in_range by exact Hs. cbn [of_out bind obind].
     replace (Z.of_nat i + 1) with (Z.of_nat (S i)) by lia. apply IH; lia.
 Qed.
+
+(* `while i << BIT_SHIFT < pb && i < N { out = h(out, g(ds[i]) as $int << (i << BIT_SHIFT)); i += 1; }` followed by reading
+   the pattern as a value: Cast.while_ with as_int_cond *)
+Lemma as_int_loop_tie dbg w lg pb ps g h ds : 0 <= lg -> w = 2 ^ lg ->
+  forall f fuel i out, (length ds <= i + f)%nat -> (f <= fuel)%nat ->
+  bind (while_loop (R := Z) fuel
+          (fun '(i, out) => (andb ((ix_shl i (digit_BIT_SHIFT w)) <? pb) (i <? Z.of_nat (length ds))))
+          (fun '(i, out) =>
+             t1' <- arr_get ds i ;;
+             t2' <- pint_shl pb (ud pb (g t1')) (ix_shl i (digit_BIT_SHIFT w)) ;;
+             let out := (h out t2') in
+             let i := (i + 1) in
+             Done (Continue (i, out)))
+          (Z.of_nat i, out))
+       (fun t3' => match t3' with Exited (i, out) => Done (Cast.p_of_bits pb ps out) | Returned t4' => Done t4' end)
+  = of_out (omap (Cast.p_of_bits pb ps)
+      (Cast.while_ f (Cast.as_int_cond pb w (length ds)) (acc_body dbg pb w g h ds) i out)).
+Proof.
+  intros Hlg Hw. assert (Hw0 : 0 < w) by (subst w; apply Z.pow_pos_nonneg; lia).
+  induction f as [|f IH]; intros fuel i out Hend Hf.
+  - cbn [Cast.while_ omap of_out]. rewrite while_loop_cond_false; [reflexivity|].
+    rewrite ltb_of_nat. destruct (Nat.ltb_spec i (length ds)); [lia|]. apply andb_false_r.
+  - cbn [Cast.while_]. unfold Cast.as_int_cond at 1.
+    destruct ((Z.of_nat i * w <? pb) && (i <? length ds)%nat) eqn:Hc.
+    + destruct fuel as [|fuel]; [lia|]. rewrite while_loop_S. cbv beta iota.
+      rewrite (ix_shl_BIT_SHIFT w lg) by assumption. rewrite ltb_of_nat, Hc.
+      apply andb_true_iff in Hc. destruct Hc as [Hs Hi]. apply Z.ltb_lt in Hs. unfold acc_body at 1.
+      rewrite <- rd_as_arr_get. destruct (Cast.rd ds i) as [d|]; [|reflexivity]. cbn [of_out bind obind].
+      rewrite pint_shl_ok by nia. rewrite shl_chk_in_range by exact Hs. cbn [bind obind]. cbv zeta.
+      replace (Z.of_nat i + 1) with (Z.of_nat (S i)) by lia.
+      apply IH; lia.
+    + cbn [omap of_out]. rewrite while_loop_cond_false; [reflexivity|].
+      rewrite (ix_shl_BIT_SHIFT w lg) by assumption. rewrite ltb_of_nat. exact Hc.
+Qed.
+
+Lemma xorb_negb_eqb a b : xorb a b = negb (Bool.eqb a b).
+Proof. destruct a, b; reflexivity. Qed.
